@@ -483,6 +483,7 @@ func vfC01Run(t *testing.T, cs vfC01Case, out *vfC01Out, isKnown func(string) bo
 		rendered := vfRenderFrames(frames)
 		type segment struct {
 			unjudged bool
+			srvRecover bool // started by a Client.Subscribe push with RecoverSince
 			active bool
 			epoch  string
 			last   uint64
@@ -490,7 +491,7 @@ func vfC01Run(t *testing.T, cs vfC01Case, out *vfC01Out, isKnown func(string) bo
 			n      int
 		}
 		var seg segment
-		segments, delivered, outside := 0, 0, 0
+		segments, delivered, outside, outOfOrderStarts := 0, 0, 0, 0
 		epochResetKey := ""
 		serverIdx := 0
 		endSeg := func() { seg.active = false }
@@ -537,7 +538,12 @@ func vfC01Run(t *testing.T, cs vfC01Case, out *vfC01Out, isKnown func(string) bo
 		}
 		startSeg := func(res *protocol.SubscribeResult, a *vfC01SubAttempt, pushOffset uint64, pushEpoch string, isPush bool) string {
 			if seg.active {
-				return "a second subscription start arrived while the previous one is still active"
+				// A subscribe reply may reach the wire ahead of the push that ended the previous subscription: with
+				// ReplyWithoutQueue a direct reply overtakes queued pushes, and Client.Unsubscribe (also the
+				// insufficient-state path) removes the channel before it enqueues the unsubscribe push, so a
+				// re-subscribe in between is answered first. The order of start/end frames is property C10's
+				// subject; here the new start implicitly ends the previous segment.
+				outOfOrderStarts++
 			}
 			seg = segment{active: true}
 			segments++
@@ -602,13 +608,16 @@ func vfC01Run(t *testing.T, cs vfC01Case, out *vfC01Out, isKnown func(string) bo
 					// but a Subscribe push cannot carry the recovered publications.
 					seg.start = a.reqOffset
 				}
+				if m == "" && a != nil && a.recover {
+					seg.srvRecover = true
+				}
 			case r.Push != nil && r.Push.Channel == ch && r.Push.Unsubscribe != nil:
 				endSeg()
 			case r.Push != nil && r.Push.Disconnect != nil:
 				endSeg()
 			case r.Push != nil && r.Push.Channel == ch && r.Push.Pub != nil:
 				m = deliver(r.Push.Pub, fmt.Sprintf("push, frame %d", fi))
-				if m != "" && cs.Mode == 1 && strings.HasPrefix(m, "silent gap") {
+				if m != "" && seg.srvRecover && strings.HasPrefix(m, "silent gap") {
 					key := "C01:server-side-subscribe-recover-since-drops-recovered-publications"
 					if isKnown(key) {
 						out.known = append(out.known, key)
@@ -647,6 +656,9 @@ func vfC01Run(t *testing.T, cs vfC01Case, out *vfC01Out, isKnown func(string) bo
 		}
 		if outside > 0 {
 			out.labels = append(out.labels, "pub_outside_segment_ignored")
+		}
+		if outOfOrderStarts > 0 {
+			out.labels = append(out.labels, "subscribe_start_before_previous_end_frame")
 		}
 		if faults == 0 && segments > 0 && seg.active && seg.last == top && seg.epoch == curEpoch {
 			out.labels = append(out.labels, "no_fault_alive_at_top")
